@@ -6,17 +6,19 @@ use std::collections::BTreeMap;
 use cosmwasm_std::testing::MockStorage;
 use cosmwasm_std::{coin, Addr, Coin, Decimal, Empty, Timestamp, Uint128, Uint64};
 use cw_multi_test::{
-    App, AppBuilder, BankKeeper, Contract, ContractWrapper, DistributionKeeper, Executor,
+    App, AppBuilder, Contract, ContractWrapper, DistributionKeeper, Executor,
     FailingModule, GovFailingModule, IbcFailingModule, MockApiBech32, StakeKeeper, WasmKeeper,
 };
+mod faultbank;
 mod tfmock;
+use faultbank::{FaultyBank, Faults, SharedFaults};
 use tfmock::TfMock;
 use serde_json::{json, Value};
 
 mod prim;
 
 type TfApp = App<
-    BankKeeper,
+    FaultyBank,
     MockApiBech32,
     MockStorage,
     FailingModule<Empty, Empty, Empty>,
@@ -66,6 +68,7 @@ fn c_farm() -> Box<dyn Contract<Empty>> {
 struct World {
     app: TfApp,
     addrs: BTreeMap<String, Addr>,
+    faults: SharedFaults,
 }
 
 fn u128_of(v: &Value) -> u128 {
@@ -150,10 +153,11 @@ fn run(sc: &Value) -> Value {
         addrs.insert(k.clone(), api.addr_make(k));
     }
     let init2: Vec<(Addr, Vec<Coin>)> = init.iter().map(|(k, c)| (addrs[k].clone(), c.clone())).collect();
+    let faults: SharedFaults = std::rc::Rc::new(std::cell::RefCell::new(Faults::default()));
     let app: TfApp = AppBuilder::new()
         .with_api(api)
         .with_wasm(WasmKeeper::default())
-        .with_bank(BankKeeper::new())
+        .with_bank(FaultyBank::new(faults.clone()))
         .with_stargate(TfMock::new(tf_fees))
         .build(|router, _api, storage| {
             for (a, c) in init2 {
@@ -162,7 +166,7 @@ fn run(sc: &Value) -> Value {
                 }
             }
         });
-    let mut w = World { app, addrs };
+    let mut w = World { app, addrs, faults };
     let creator = w.addr("creator");
     let setup = &sc["setup"];
     // block time before instantiation
@@ -320,6 +324,17 @@ fn run(sc: &Value) -> Value {
                     Ok(_) => json!({"ok": null}),
                     Err(err) => json!({"err": format!("{:#}", err)}),
                 }
+            }
+            "block_recipient" => {
+                // native fault injection: every bank send to this address fails from now on
+                let a = w.addr(st["addr"].as_str().unwrap());
+                w.faults.borrow_mut().blocked.insert(a.to_string());
+                json!({"ok": null})
+            }
+            "fail_send_number" => {
+                // native fault injection: the n-th bank send from now on fails (whatever its recipient)
+                w.faults.borrow_mut().fail_send_in = Some(u64_of(&st["n"]));
+                json!({"ok": null})
             }
             "mint" => {
                 let to = w.addr(st["to"].as_str().unwrap());
